@@ -492,7 +492,7 @@ def reference_histories(chk, model, bres, tier, prop):
     accepted file holds each reference's target in the holder's logical file"""
     R = rng(prop, 'reference-histories')
     n = 250 if tier == 'quick' else 2500
-    hs = [H.gen_ref_history(R) for _ in range(n)]
+    hs = [H.gen_ref_history(R, hc=(prop == 'C17')) for _ in range(n)]
     tmp = tempfile.mkdtemp(prefix='verif_refs_')
     try:
         dumps, meta = [], []
@@ -517,6 +517,19 @@ def reference_histories(chk, model, bres, tier, prop):
             if mrep is not None and mrep != got:
                 chk.disagree('reference-histories:write-checks', case, got, mrep)
             # the property itself, model-free: an accepted file has no reference across logical files ...
+            if got == 'ok' and h.get('hc'):
+                # ... and, in the mode, no channel listed by no frame or by several (read off the specification)
+                acc_ = [o for o in h['ops'] if o['out'] == 'ok']
+                for ci, o in enumerate(acc_):
+                    if o['kind'] == 'channel':
+                        uses = sum(a['targets'].count(ci) for a in h['assigns']
+                                   if a['attr'] == 'channels' and acc_[a['holder']]['kind'] == 'frame'
+                                   and acc_[a['holder']]['lf'] == o['lf'])
+                        if uses != 1:
+                            chk.fail('aspect:not-enforced:channel-frame-count', case,
+                                     f'channel {o["name"]!r} of logical file {o["lf"]} is listed {uses} times by the frames of '
+                                     f'its logical file and the file is written inside the mode')
+                            break
             if got == 'ok' and cross:
                 chk.fail('references:accepted-across-logical-files', case,
                          f'{cross} reference(s) to objects of another logical file and the file is written')
